@@ -130,11 +130,13 @@ structure ObsErr where
 structure SpecFamilies where
   fams : List (String × String)
   devRules : List String
+  staleUnexplained : List String := []
 
 def decFamilies (j : Json) : Except String SpecFamilies := do
   let names := ["annotations", "args", "envOrdered", "envSorted", "mounts", "hooks", "rlimits", "devices",
                 "resources", "blockio", "rdt", "cgroupsPath", "oomScoreAdj", "rest"]
-  pure { fams := ← names.mapM (fun n => do pure (n, ← getStr j n)), devRules := ← getStrList j "devRules" }
+  pure { fams := ← names.mapM (fun n => do pure (n, ← getStr j n)), devRules := ← getStrList j "devRules",
+         staleUnexplained := (getStrList j "staleUnexplained").toOption.getD [] }
 
 structure CaseObs where
   comb : Option SpecFamilies := none
